@@ -2,7 +2,7 @@
    returned as cases; these functions re-run the models and compare the plans as maps (member -> topic -> partition list,
    list order included). *)
 From Coq Require Import List ZArith Bool String.
-From SV Require Import Base.Corr C08.Common C08.RangeFloat C08.RangeTable C08.Range C08.RoundRobin C08.Sticky C08.Valid.
+From SV Require Import Base.Corr C08.Common C08.RangeFloat C08.RangeTable C08.Range C08.RoundRobin C08.Sticky C08.StickyDirect C08.Valid.
 Import ListNotations.
 Open Scope Z_scope.
 
@@ -43,13 +43,18 @@ Record scase := {
   sc_hooked : bool;      (* the sticky.iter.* call sites reported the iteration orders *)
   sc_members : list member; sc_topics : topics_t; sc_oracle : oracle; sc_obs : sobs }.
 Definition sticky_fuel : nat := 400.
+(* the run made no reverse-pair redirection <-> the sticky.pick call site was never reached *)
+Definition direct_matches (c : scase) : bool :=
+  negb (sc_hooked c) ||
+  Bool.eqb (plan_directb sticky_fuel (sc_fx c) (sc_oracle c) (sc_members c) (sc_topics c))
+           (match o_picks (sc_oracle c) with [] => true | _ => false end).
 Definition ok_sticky (c : scase) : bool :=
   match sticky_plan sticky_fuel (sc_fx c) (sc_oracle c) (sc_members c) (sc_topics c), sc_obs c with
   | SErr, OErr => true
   | SPanic, OPanic => true
-  | SFuel _, OHang => true
+  | SFuel _, OHang => direct_matches c
   | SOk p, OPlan q =>
-    if sc_hooked c then plan_eqb p q && (negb (sc_fx c) || valid_planb (sc_members c) (sc_topics c) q)
+    if sc_hooked c then plan_eqb p q && (negb (sc_fx c) || valid_planb (sc_members c) (sc_topics c) q) && direct_matches c
     else negb (sc_fx c) || valid_planb (sc_members c) (sc_topics c) q
   | _, _ => negb (sc_hooked c) && negb (sc_fx c)
   end.
